@@ -24,6 +24,20 @@ def run_c15(run, tier, wd, binary, replay):
         scs = [json.load(open(replay))["replay"]["scenario"]]
     else:
         scs = [dict(id="c%d" % i, opts=o) for i, o in enumerate(cl.all_sequences(2, cl.KEYSETS[:3]))]
+        # the same two-option sequences with an Initialize between the options (a shared Configure started twice)
+        scs += [dict(id="i%d" % i, opts=[sc["opts"][0], dict(kind="init", lk="none", keys=[], val=0, join=False), sc["opts"][1]])
+                for i, sc in enumerate(list(scs)) if len(sc["opts"]) == 2]
+        # one variadic call SetConfigLoader(l1, l2) / AddConfigLoader(l1, l2) over every pair of loader kinds, alone and after a first start
+        i = 0
+        for k0 in ("set", "add"):
+            for lk1 in ("raw", "args", "file"):
+                for lk2 in ("raw", "args", "file"):
+                    for ks1, ks2 in ((["a", "b"], ["a"]), (["a"], ["a", "b"])):
+                        pair = [dict(kind=k0, lk=lk1, keys=ks1, val=1, join=False), dict(kind="add", lk=lk2, keys=ks2, val=2, join=True)]
+                        scs.append(dict(id="v%d" % i, opts=pair))
+                        scs.append(dict(id="w%d" % i, opts=[dict(kind="add", lk="raw", keys=["a", "c.x"], val=3, join=False),
+                                                            dict(kind="init", lk="none", keys=[], val=0, join=False)] + pair))
+                        i += 1
         if tier == "thorough":
             scs += [dict(id="d%d" % i, opts=o) for i, o in enumerate(cl.all_sequences(3, cl.KEYSETS[:2], vals=(1,)))]
         scs += [dict(id="r%d" % i, opts=cl.rand_sequence(rng, 6)) for i in range(600 if tier == "quick" else 8000)]
